@@ -42,6 +42,9 @@ pub struct BuildSpec {
     /// On build failure, re-run through sway_core directly to collect diagnostics with spans.
     #[serde(default)]
     pub want_diagnostics: bool,
+    /// Run the package's `main` as a script with this script data (hex), like the e2e harness.
+    #[serde(default)]
+    pub run_script: Option<String>,
 }
 
 #[derive(Serialize, Deserialize, Clone, Debug)]
@@ -103,6 +106,8 @@ pub struct BuildOut {
     pub abi_json: String,
     pub storage_json: String,
     pub tests: Vec<TestOut>,
+    #[serde(default)]
+    pub script: Option<engine::ScriptRun>,
     pub run_error: String,
     pub regalloc_reports: Vec<String>,
     pub regalloc_stats: (u64, u64, u64),
@@ -447,6 +452,15 @@ impl Worker {
                             is_error: false,
                         })
                         .collect();
+                }
+                if let Some(data_hex) = &spec.run_script {
+                    let data = hex::decode(data_hex).unwrap_or_default();
+                    let bc = c.built.bytecode.bytes.clone();
+                    match std::panic::catch_unwind(move || engine::run_script(&bc, data)) {
+                        Ok(Ok(r)) => out.script = Some(r),
+                        Ok(Err(e)) => out.run_error = format!("{e:#}"),
+                        Err(_) => out.run_error = format!("panic while running the script: {} at {}", crate::take_panic_msg(), vhcore::take_panic_loc()),
+                    }
                 }
                 if spec.run_tests {
                     let r = std::panic::catch_unwind(std::panic::AssertUnwindSafe(|| {
